@@ -12,9 +12,22 @@ import (
 	"golang.org/x/exp/constraints"
 )
 
+// Defined (named) types: the primitives are generic over ~int8 | ... | ~float64 and over constraints.Unsigned,
+// so a caller may instantiate them with its own types; the properties hold for those as well.
+type (
+	DefI64 int64
+	DefU16 uint16
+	DefU32 uint32
+	DefF32 float32
+	DefI8  int8
+	DefP8  uint8
+	DefP16 uint16
+	DefP32 uint32
+)
+
 var (
-	ElemTypes   = []string{"int8", "int16", "int32", "int64", "uint8", "uint16", "uint32", "uint64", "float32", "float64"}
-	PrefixTypes = []string{"uint8", "uint16", "uint32", "uint64"}
+	ElemTypes   = []string{"int8", "int16", "int32", "int64", "uint8", "uint16", "uint32", "uint64", "float32", "float64", "def-int64", "def-uint16", "def-uint32", "def-float32", "def-int8"}
+	PrefixTypes = []string{"uint8", "uint16", "uint32", "uint64", "def-uint8", "def-uint16", "def-uint32"}
 )
 
 func fromBits[K codec.BasicType](b uint64) K {
@@ -40,6 +53,18 @@ func fromBits[K codec.BasicType](b uint64) K {
 		*p = math.Float32frombits(uint32(b))
 	case *float64:
 		*p = math.Float64frombits(b)
+	case *DefI64:
+		*p = DefI64(int64(b))
+	case *DefU16:
+		*p = DefU16(uint16(b))
+	case *DefU32:
+		*p = DefU32(uint32(b))
+	case *DefF32:
+		*p = DefF32(math.Float32frombits(uint32(b)))
+	case *DefI8:
+		*p = DefI8(int8(b))
+	default:
+		panic("fromBits: unsupported element type")
 	}
 	return k
 }
@@ -66,6 +91,16 @@ func toBits[K codec.BasicType](k K) uint64 {
 		return uint64(math.Float32bits(*p))
 	case *float64:
 		return math.Float64bits(*p)
+	case *DefI64:
+		return uint64(int64(*p))
+	case *DefU16:
+		return uint64(*p)
+	case *DefU32:
+		return uint64(*p)
+	case *DefF32:
+		return uint64(math.Float32bits(float32(*p)))
+	case *DefI8:
+		return uint64(uint8(*p))
 	}
 	panic("toBits")
 }
@@ -203,6 +238,11 @@ func regNumListsFor[T constraints.Unsigned](pname string) {
 	regNumList[T, uint64](pname, "uint64")
 	regNumList[T, float32](pname, "float32")
 	regNumList[T, float64](pname, "float64")
+	regNumList[T, DefI64](pname, "def-int64")
+	regNumList[T, DefU16](pname, "def-uint16")
+	regNumList[T, DefU32](pname, "def-uint32")
+	regNumList[T, DefF32](pname, "def-float32")
+	regNumList[T, DefI8](pname, "def-int8")
 }
 
 func regStrListsFor[T constraints.Unsigned](cname string) {
@@ -210,6 +250,9 @@ func regStrListsFor[T constraints.Unsigned](cname string) {
 	regStrList[T, uint16](cname, "uint16")
 	regStrList[T, uint32](cname, "uint32")
 	regStrList[T, uint64](cname, "uint64")
+	regStrList[T, DefP8](cname, "def-uint8")
+	regStrList[T, DefP16](cname, "def-uint16")
+	regStrList[T, DefP32](cname, "def-uint32")
 }
 
 func regStrList[T constraints.Unsigned, K constraints.Unsigned](cname, pname string) {
@@ -287,8 +330,16 @@ func init() {
 	regScalar[uint64]("uint64")
 	regScalar[float32]("float32")
 	regScalar[float64]("float64")
+	regScalar[DefI64]("def-int64")
+	regScalar[DefU16]("def-uint16")
+	regScalar[DefU32]("def-uint32")
+	regScalar[DefF32]("def-float32")
+	regScalar[DefI8]("def-int8")
 	regPrefix[uint8]("uint8")
 	regPrefix[uint16]("uint16")
 	regPrefix[uint32]("uint32")
 	regPrefix[uint64]("uint64")
+	regPrefix[DefP8]("def-uint8")
+	regPrefix[DefP16]("def-uint16")
+	regPrefix[DefP32]("def-uint32")
 }
